@@ -86,6 +86,20 @@ pub fn run(reg: &dyn Registry, ctx: &Ctx) -> Outcome {
         }
     }
 
+    // the consequence stated in the property: a generator seeded through the API is never in the
+    // all-zero state (checked directly on every non-zero seed of the structured alphabet; which seed
+    // is used verbatim is C01/C08's statement, not checked here)
+    for ty in &types {
+        let info = ty.info();
+        let seeds = super::common::seed_alphabet(info.seed_len, true);
+        let zero_img = vec![0u8; info.seed_len];
+        let bad: Vec<&Vec<u8>> = seeds.par_iter().filter(|s| crate::ops::guarded(|| ty.from_seed(s).ser()).ok().flatten().as_deref() == Some(&zero_img[..])).collect();
+        ctx.add("api_seeds_checked_nonzero_state", seeds.len() as u64);
+        if let Some(s) = bad.first() {
+            ctx.violation(&format!("C07:{}:api-zero-state", info.name), &format!("{}: from_seed({}) (a non-zero seed) is in the all-zero state, the fixed point outside the cycle", info.name, hex(s)), json!({"kind":"lockstep","type":info.name,"seed":hex(s),"steps":4}));
+        }
+    }
+
     let mut by_digest: BTreeMap<u64, (Vec<&'static str>, Result<u64, (String, String, serde_json::Value)>)> = BTreeMap::new();
     for ty in &types {
         let info = ty.info();
